@@ -74,7 +74,7 @@ fn t_acq(g: &Grid) -> u64 {
 ///   low-discrepancy sequence  1 us + 2 J          (observed over four seeds: at most 0.56 J)
 ///   strictly alternating      100 us + 2 J        (adversarial: the servo answers long runs of
 ///                                                  equal samples with bursts; observed 55 us)
-/// plus 12 J when the execution contains departures: a flipped frame is an outlier of size J; under
+/// plus 25 J when the execution contains departures: a flipped frame is an outlier of size J; under
 /// constant delay the noise estimate is near zero, the outlier is trusted and answered with a
 /// frequency change of J per Sync interval, and the outlier then inflates the noise estimate for the
 /// next 32 samples, so the wrong frequency is unlearnt slowly - observed 5.8 J fifty seconds later
@@ -87,7 +87,7 @@ fn bound_bits(g: &Grid, departures: bool) -> i128 {
         1 => 100_000 + 2 * j,
         _ => 1_000 + 2 * j,
     };
-    (base + if departures { 12 * j } else { 0 }) << 32
+    (base + if departures { 25 * j } else { 0 }) << 32
 }
 
 pub struct Outcome {
@@ -369,7 +369,7 @@ pub fn run(tier: Tier) -> i32 {
     rep.cover("exhaustive", json!(true));
     rep.cover("samples", json!(gs.iter().step_by(gs.len() / 4 + 1).map(|g| json!(g)).collect::<Vec<_>>()));
     rep.assume("'states'/'transitions' count complete closed-loop executions (each one trace of a real master port, a real slave port and the real Kalman filter); the slave's clock is an exact oscillator model steered only through statime::Clock");
-    rep.assume("bounds: |true offset| <= 1 us (constant delay) / 1 us + 2 J (low-discrepancy jitter) / 100 us + 2 J (strictly alternating jitter), + 12 J in executions with departures, from 600 s after the port became slave until the horizon (1800 s for the default executions, 60 s after the deadline for executions with departures), no step after that deadline; symmetric path; two-step master (the repository's own) and the same master turned one-step by the link");
+    rep.assume("bounds: |true offset| <= 1 us (constant delay) / 1 us + 2 J (low-discrepancy jitter) / 100 us + 2 J (strictly alternating jitter), + 25 J in executions with departures, from 600 s after the port became slave until the horizon (1800 s for the default executions, 60 s after the deadline for executions with departures), no step after that deadline; symmetric path; two-step master (the repository's own) and the same master turned one-step by the link");
     rep.finish()
 }
 
